@@ -486,6 +486,7 @@ package engine
 //@   ensures kept: forall k :: { es.backtrack.store[k] } 0 <= k && k < n ==> es.backtrack.store[k] == old(e0.backtrack.store[k])
 //@   ensures snap: es.backtrack.store[n].programCounter == e0.programCounter && es.backtrack.store[n].currentFileOffset == e0.currentFileOffset && es.backtrack.store[n].currentMatch == e0.currentMatch && es.backtrack.store[n].status == e0.status
 //@   ensures snaploops: es.backtrack.store[n].loopStack != nil && es.backtrack.store[n].loopStack != e0.loopStack && len(es.backtrack.store[n].loopStack.store) == len(e0.loopStack.store) && es.backtrack.store[n].callStack != nil && len(es.backtrack.store[n].callStack.store) == len(e0.callStack.store)
+//@   ensures snaprecords: forall k :: { es.backtrack.store[n].loopStack.store[k] } 0 <= k && k < len(e0.loopStack.store) ==> sameLoopState(es.backtrack.store[n].loopStack.store[k], old(e0.loopStack.store[k])) [C10 C01]
 //@   ensures snapframe: frozen(&es.backtrack.store[n], e0)
 //@   ensures snapfresh: fresh(es.backtrack.store[n].loopStack) && fresh(es.backtrack.store[n].callStack) && fresh(es.backtrack.store[n].backtrack) && fresh(es.backtrack.store[n].variableStack)
 //@   ensures snapenv: fresh(es.backtrack.store[n].environment.Value) [C02]
